@@ -241,7 +241,10 @@ def run_trees(pid, tier, seed):
     vh = vlib.build_harness()
     r1, states_path, states = parse_r1("quick")
     walks, nwalks = spec_walks(tier, seed)
-    g = vlib.run_gen(vh, "trees", tier, seed, states=states_path, walks=walks, shards=nshards(tier))
+    lits_path, c, nlits = float_lits()
+    r1.append(c)
+    g = vlib.run_gen(vh, "trees", tier, seed, states=states_path, walks=walks, shards=nshards(tier),
+                     extra_args=["-floatlits", lits_path])
     res = {"r1": r1, "gens": [g]}
     if "hang" in g:
         res["hang"] = g["hang"]
